@@ -31,9 +31,11 @@ IsEv(e) == i <= NL /\ Trace[i].e = e
 Line == Trace[i]
 Boundary(j) == j > NL \/ Trace[j].e = "reset"
 
-\* a fresh group: newRoundRobinTCPClientGroup / newRoundRobinUDPClientGroup -> selector.init
+\* A fresh group: newRoundRobinTCPClientGroup / newRoundRobinUDPClientGroup -> selector.init.  C19 fixes the
+\* cyclic order, not the member the cycle starts with, so the validation accepts any start (the code starts at
+\* position 0; the replay driver reports another start as model drift).
 Fresh ==
-    /\ rr' = 0
+    /\ rr' \in 0..(N - 1)
     /\ cpc' = [p \in Callers |-> "idle"]
     /\ ctk' = [p \in Callers |-> 0]
     /\ given' = [j \in 1..N |-> 0]
